@@ -120,3 +120,17 @@ NOT_APPLICABLE = {
 
 # properties whose harnesses exist but are not claimed (reason shown in MANIFEST.not_applicable)
 NOT_YET = {}
+
+# properties currently claimed (their quick tier is measured to pass on the unchanged tree within
+# the time budget); the others fall back to NOT_APPLICABLE / UNCLAIMED_REASONS
+CLAIMED_NOW = ["C03", "C07", "C10", "C11", "C16", "C19", "C20"]
+
+UNCLAIMED_REASONS = {
+    "C01": "Library search drivers: harnesses exist (shape-enumerated FindAllNodes / overlap-free Visitor / kind-set algebra) but do not finish within the quick budget on this machine (DESIGN 3); CLI wiring is not reachable.",
+    "C02": "The sibling-alignment engine (match_nodes_impl_recursive + MetaVarEnv) could not be decided by Kani/CBMC within 25 min / 30 GB even for one goal vs one candidate (DESIGN 3); harnesses and natively validated oracle are kept (c02_cut.rs).",
+    "C04": "Everything through MetaVarEnv (heap maps of String -> Node) exhausts the SAT back end (30 GB in propositional reduction) or symex time (DESIGN 3); harnesses kept (c04_ops.rs, c04_insert.rs).",
+    "C05": "Relational rules through Rule/RuleCore: 13-way dispatch + heap objects; > 20 min symex then 30 GB in array post-processing even with matcher structs on the stack and enumerated shapes (DESIGN 3); harnesses and oracle kept (c05_rel.rs).",
+    "C06": "replace_all harnesses exist (c01_search.rs) but do not finish within the quick budget; Fixer expansions / rewrite transformation need MetaVarEnv + RuleCore (DESIGN 3); CLI splice not reachable.",
+    "C12": "get_matcher / Fixer::parse / check_var: String- and heap-heavy config code; the 2-byte template `$T` alone needs 25 min then runs out of memory (DESIGN 3); harnesses kept (c12_*.rs, c13_utils.rs).",
+    "C14": "parse_suppression_set uses str::split_once with a 15-byte needle on symbolic text (> 15 min per 1-byte tail); CombinedScan::scan > 37 min (DESIGN 3); harness and natively validated oracle kept (c14_scan.rs, small_kernels.rs).",
+}
